@@ -188,4 +188,40 @@ def specPartitions (rs : R) (o : Option (R × Nat × R)) : Bool :=
     sameOn (window [rs, l, r] [m]) (member rs) (fun h => member l h || h == m || member r h) &&
     decide (card l ≤ card r + 1) && decide (card r ≤ card l + 1)
 
+/-! ### the helper-level operations (single-range methods, `find_affected_ranges`), on valid arguments -/
+
+/-- number of heights of a (possibly empty) range; `none` = does not fit in u64 (0..=2^64-1) -/
+def specRangeLen (r : Nat × Nat) (o : Option Nat) : Bool :=
+  let c := if r.1 ≤ r.2 then r.2 + 1 - r.1 else 0
+  o == (if c ≤ U64MAX then some c else none)
+
+def specRangeAdjacent (a b : Nat × Nat) (o : Bool) : Bool := o == (a.2 + 1 == b.1 || b.2 + 1 == a.1)
+/-- overlapping = sharing a height -/
+def specRangeOverlapping (a b : Nat × Nat) (o : Bool) : Bool := o == (decide (a.1 ≤ b.2) && decide (b.1 ≤ a.2))
+def specRangeLeftOf (a b : Nat × Nat) (o : Bool) : Bool := o == decide (a.2 < b.1)
+def specRangeRightOf (a b : Nat × Nat) (o : Bool) : Bool := o == decide (b.2 < a.1)
+
+/-- the `n` highest heights of a valid range (an empty range when `n = 0`) -/
+def specRangeHeadn (r : Nat × Nat) (n : Nat) (out : Nat × Nat) : Bool :=
+  if n == 0 then decide (out.2 < out.1)
+  else out.2 == r.2 && decide (r.1 ≤ out.1) && decide (out.1 ≤ out.2) &&
+       (out.2 + 1 - out.1 == min n (r.2 + 1 - r.1))
+
+/-- the `n` lowest heights of a valid range -/
+def specRangeTailn (r : Nat × Nat) (n : Nat) (out : Nat × Nat) : Bool :=
+  if n == 0 then decide (out.2 < out.1)
+  else out.1 == r.1 && decide (out.2 ≤ r.2) && decide (out.1 ≤ out.2) &&
+       (out.2 + 1 - out.1 == min n (r.2 + 1 - r.1))
+
+/-- `find_affected_ranges`: first and last index of the ranges that share a height with `r` or
+    are adjacent to it -/
+def specFind (rs : R) (r : Nat × Nat) (o : Option (Nat × Nat)) : Bool :=
+  let idx := (List.range rs.length).filter (fun i =>
+    match rs[i]? with
+    | some x => decide (r.1 ≤ x.2 + 1) && decide (x.1 ≤ r.2 + 1)
+    | none => false)
+  o == (match idx.head?, idx.getLast? with
+    | some i, some j => some (i, j)
+    | _, _ => none)
+
 end Lumina.Spec.C17
